@@ -107,8 +107,14 @@ class Run:
                 try:
                     from openpectus.engine.engine_message_builder import EngineMessageBuilder
                     msg = EngineMessageBuilder(e, "", False).create_runlog_msg("run")
+                    info = e.tracking.runtimeinfo
+
+                    def invocations(iid: str) -> int:
+                        rec = info.get_record_by_instance(iid)
+                        return 0 if rec is None else len({st.instance_id for st in rec.states})
                     snap["lines"] = [{"id": ln.id, "name": ln.command_name, "end": ln.end, "cancelled": ln.cancelled,
-                                      "failed": ln.failed} for ln in msg.runlog.lines]
+                                      "failed": ln.failed, "invocations": invocations(ln.id)}
+                                     for ln in msg.runlog.lines]
                 except Exception as ex:
                     snap["error"] = f"{type(ex).__name__}: {ex}"
                 run.stops.append(snap)
@@ -374,7 +380,9 @@ def oracle_c10(case: dict[str, Any], res: dict[str, Any]) -> list[tuple[str, str
         else:
             for ln in stop["lines"]:
                 if ln["id"] in executed_ids and ln["end"] is None:
-                    out.append(("started-command-not-concluded-in-final-runlog",
+                    # a node that ran several times (Alarm body) shares one record: separate signature
+                    rep = ":repeated-node" if ln.get("invocations", 1) > 1 else ""
+                    out.append(("started-command-not-concluded-in-final-runlog" + rep,
                                 f"tick {t}: {ln['name']} was executed but the reported run log line has no end"))
         for ev in log:
             if ev[0] > t and ev[1] == "exec" and first_seen[ev[3]] <= t:
@@ -425,8 +433,8 @@ def oracle_c12(case: dict[str, Any], res: dict[str, Any]) -> list[tuple[str, str
                 out.append(("cancel-of-unknown-id-accepted", f"before tick {t + 1}"))
             continue
         cls = r.get("node_cls") or "?"
-        site = ("uod-command" if cls == "UodCommandNode" else "engine-command") if r.get("has_cmd") else \
-            ("uod-command" if cls == "UodCommandNode" else "node")
+        # which branch of cancel_instruction / force_instruction serves the request
+        site = ("uod-command" if cls == "UodCommandNode" else "engine-command") if r.get("has_cmd") else "node"
         offered = item[3] if op == "cancel" else item[4]
         what = f"{op} of {item[1]!r} ({cls}, state {item[2]}, cancellable={item[3]}, forcible={item[4]}) before tick {t + 1}"
         if not offered:
@@ -466,17 +474,22 @@ def oracle_c12(case: dict[str, Any], res: dict[str, Any]) -> list[tuple[str, str
                     out.append(("cancelled-timed-pause-does-not-end", what))
         else:
             nid = r.get("node_id")
+            # "proceeds without waiting": within the next three ticks in which the interpreter runs at all
+            # (not paused, on hold, stopped or in error state)
+            window = [k for k in range(t, n_ticks) if res["ticks"][k]["sys"] == "Running" and
+                      not res["ticks"][k]["paused"] and not res["ticks"][k]["holding"]][:3]
+            if len(window) < 3 or window[-1] - t > 3:
+                continue
             if cls == "InterpreterCommandNode" and item[1].startswith("Wait"):
-                # this invocation of the Wait (instance id) is shown as completed within three ticks
                 states = []
-                for k in range(t, min(t + 3, n_ticks)):
+                for k in window:
                     rl = res["ticks"][k]["runlog"]
                     if isinstance(rl, list):
                         states += [x[2] for x in rl if x[0] == item[0]]
                 if states and "completed" not in states:
                     out.append(("forced-wait-still-waiting", what + f": states {states} in the next three ticks"))
             elif cls == "WatchNode":
-                nd = node_at(min(t + 2, n_ticks - 1), nid)
+                nd = node_at(window[-1], nid)
                 if nd is not None and not nd[5] and not nd[2]:
-                    out.append(("forced-watch-not-activated", what + f": not activated at tick {t + 3}"))
+                    out.append(("forced-watch-not-activated", what + f": not activated at tick {window[-1] + 1}"))
     return out
